@@ -336,6 +336,24 @@ def main(tier, replay=None):
                           "published table disagree in the model; inspect before trusting replay.\n%s"
                           % model_violation)
 
+    # "The grouping depends only on the operators, never on what the operands are": the chains above have names as
+    # operands; two integer operands around a dot are the one operand pair the parser treats differently
+    hq = C.Harness(hp)
+    try:
+        for text in ("x . 1 . 0;", "x.1.0;", "x . 1 . 0 . y;"):
+            r = hq.req({"op": "parse", "src": text})
+            evals += 1
+            st = r.get("stmts") or []
+            ok = (r.get("ok") and len(st) == 1 and st[0]["x"].get("e") == "bin" and st[0]["x"]["op"] == "dot"
+                  and (text.endswith("y;") or (st[0]["x"]["r"].get("e") == "lit" and st[0]["x"]["r"]["val"].get("t") == "int"
+                                               and st[0]["x"]["l"].get("e") == "bin")))
+            if text.endswith("y;"):
+                ok = ok and st[0]["x"]["l"].get("e") == "bin" and st[0]["x"]["l"]["l"].get("e") == "bin"
+            if not ok:
+                rep.disagree({"leg": "integer-operands", "text": text, "expected": "((x . 1) . 0): two level-6 operators group from the left",
+                              "observed": str(st)[:600]}, key="integer-selectors-are-read-as-one-float")
+    finally:
+        hq.close()
     code = rep.finish()
     C.write_evidence(PID, tier, "model_checking", {
         "states": states, "transitions": trans,
